@@ -12,6 +12,7 @@ FLOOR = 40
 EXPLANATION = ('Wake-up pairing as must-pass obligations on the success paths of every producing function; the throttling predicates of waiter and '
                'waker are complementary comparisons against the same constant; the WaitCondvar flag is only touched under its mutex and waited for '
                'in a loop; every worker result reaches store_err; store_err and shutdown wake every waiter.')
+EXPLANATION += " Added: every waker of the log-queue throttle notifies under its mutex and the waiter reads the flag under it; throttle loops re-check shutdown / the error slot; committers are woken under the queue mutex; the deferral scan cannot make two waiting commits wait for each other; known finding F21 (the log worker blocks on a client's tree lock)."
 ASSUMPTIONS = ['termination of worker loops, fairness and throttling bounds are not decided', 'a client holding a tree read lock while blocked in a throttled commit is outside static reach (note N4)',
                'lock-order graph: lock classes are struct fields (all instances of a field are one class); bodies taking `&mut self` of the owning struct are excluded (exclusive access); LogQuery dispatch is resolved per call-site instantiation, other generic trait calls by all crate impls', 'unwind edges ignored']
 TRUSTED = ['rustc MIR construction (nightly)', 'pdb-facts driver', 'rule engine /verif/rules', 'waiter/notifier table in props/C15.py']
